@@ -119,7 +119,7 @@ pub const SUBS: &[Sub] = &[Sub { name: "sequences", f: sub_sequences }];
 
 pub fn run(ctx: &Ctx) {
     run_regress(ctx, SUBS);
-    drive_random(ctx, &SUBS[0], ctx.n(40_000, 2_000_000), 700);
+    drive_random(ctx, &SUBS[0], ctx.n(40_000, 20_000_000), 700);
 }
 
 pub fn finish(ctx: &Ctx) -> i32 {
